@@ -1260,6 +1260,7 @@ func (g *Gen) nativeModel(ce callee, c *ssa.CallCommon, results []TV) bool {
 		return true
 	}
 	// Errorf: a fresh non-nil error whose text is the formatted string
+	g.errorfUnwrap(format, vals, okv, results[0].T)
 	r := results[0].T
 	al := g.heap("alloc")
 	g.guard(and(not(eq(r, "0")), "(<= (atime "+r+") "+al+")"))
@@ -1291,6 +1292,41 @@ func (g *Gen) nativeModel(ce callee, c *ssa.CallCommon, results []TV) bool {
 }
 
 // formatTerm builds the string term for a constant format; "" if a verb is unsupported.
+// errorfUnwrap: what errors.Unwrap gives for the result of fmt.Errorf - the operand of the single %w verb; nil when
+// there is no %w or more than one (such an error has Unwrap() []error, which errors.Unwrap does not follow).
+func (g *Gen) errorfUnwrap(format string, vals []ssa.Value, okv bool, r string) {
+	if _, ok := g.S.Fns["unwrapof"]; !ok {
+		return
+	}
+	var wIdx []int
+	idx := 0
+	for i := 0; i < len(format); i++ {
+		if format[i] != '%' {
+			continue
+		}
+		i++
+		if i < len(format) && format[i] == '%' {
+			continue
+		}
+		for i < len(format) && strings.ContainsRune("+-# 0123456789.", rune(format[i])) {
+			i++
+		}
+		if i >= len(format) {
+			break
+		}
+		if format[i] == 'w' {
+			wIdx = append(wIdx, idx)
+		}
+		idx++
+	}
+	switch {
+	case len(wIdx) == 1 && okv && wIdx[0] < len(vals):
+		g.guard(eq("(spec.unwrapof "+r+")", g.v(vals[wIdx[0]])))
+	case len(wIdx) != 1:
+		g.guard(eq("(spec.unwrapof "+r+")", "0"))
+	}
+}
+
 func (g *Gen) formatTerm(format string, vals []ssa.Value) string {
 	var pieces []string
 	lit := ""
